@@ -9,6 +9,10 @@ OBLIGATIONS = [
     dict(BASE, name="pass_composition", defs=["K_PASS", "NEV=4", "STRINGSIZE=16"],
          functions=["asmpars.c:EnterIntSymbolWithFlags", "CreateSymbolEntry", "EnterSymbol", "SymbolAdder", "LookupSymbol", "FindNode", "FindLocNode", "FindNode_FNode", "ResetSymbolDefines"],
          bounds="2 symbols, previous-pass table arbitrary, 4 events {use L, use F, define L:=v, define F:=v} with arbitrary 64-bit values, pass number 1..3", timeout=1200),
+    dict(BASE, name="padded_label", defs=["K_PADLABEL", "STRINGSIZE=16"], units=BASE["units"] + ["asmlabel.c"], nobody_mode="nondet",
+         functions=["asmlabel.c:LabelHandle", "asmlabel.c:LabelModify", "asmlabel.c:LabelReset", "asmpars.c:EnterIntSymbolWithFlags", "EnterSymbol", "SymbolAdder", "ChangeSymbol", "ResetSymbolDefines"],
+         bounds="one label, any address below 2^31, padding 0..3 bytes, two consecutive passes with identical layout",
+         assumes=BASE["assumes"] + ["InsertPadding's WriteCode/MakeList not executed: the harness calls LabelHandle(k) and LabelModify(k, k+pad) as InsertPadding does"]),
     dict(BASE, name="forward_lookup", defs=["K_FORWARD", "STRINGSIZE=16"],
          functions=["asmpars.c:LookupSymbol", "FindNode", "FindNode_FSpec", "FindNode_FNode", "EnterSymbol"],
          bounds="first pass, one section inside the global scope, a global symbol L; FORWARD L announced or not; reference spelled L or l; case-sensitive mode on/off",
